@@ -77,6 +77,7 @@ func GenSet(tier string) []GenSpec {
 		probe("naming"),
 		probe("noargs"),
 		probe("models"),
+		probe("godirectives"),
 		probeOverlay("modelsfn", "models", map[string]string{"use_function_syntax_for_execution_context": "true"}),
 		probeOverlay("namingfn", "naming", map[string]string{"use_function_syntax_for_execution_context": "true"}),
 		probeOverlay("customrootsopt", "customroots", map[string]string{"nullable_input_omittable": "true", "return_pointers_in_unmarshalinput": "true", "call_argument_directives_with_null": "true", "omit_slice_element_pointers": "true"}),
@@ -90,6 +91,7 @@ func GenSet(tier string) []GenSpec {
 			testserver("singlefileptrinput", "singlefile", map[string]string{"return_pointers_in_unmarshalinput": "true"}),
 			fed("usefunctionsyntaxforexecutioncontext"),
 			probeOverlay("customrootswl", "customroots", wl),
+			probeOverlay("godirectivesfn", "godirectives", map[string]string{"use_function_syntax_for_execution_context": "true"}),
 			probeOverlay("customrootsfn", "customroots", map[string]string{"use_function_syntax_for_execution_context": "true"}),
 			GenSpec{GenConfig: pipeline.GenConfig{Name: "nullabledirectives", Dir: "codegen/testserver/nullabledirectives", Config: "gqlgen.yml", Stub: "stub.go", Schema: []string{"*.graphql"}},
 				ExecPkg: "codegen/testserver/nullabledirectives/generated"},
